@@ -119,6 +119,22 @@ let rec show_rval = function
   | RSeq (k, l) -> "(Q " ^ ckind_s k ^ String.concat "" (List.map (fun v -> " " ^ show_rval v) l) ^ ")"
   | RDict l -> "(D" ^ String.concat "" (List.map (fun (k, v) -> " (" ^ show_rval k ^ " " ^ show_rval v ^ ")") l) ^ ")"
 
+(* ---- dict specification *)
+let dst : (z * z) list ref = ref []
+let show_dout = function
+  | RUnit -> "unit"
+  | RVal (Some v) -> "val " ^ string_of_int (int_of_z v)
+  | RVal None -> "val none"
+  | RBool0 b -> if b then "bool 1" else "bool 0"
+  | RLen n -> "len " ^ string_of_int (int_of_z n)
+  | RItems m -> String.trim ("items " ^ String.concat " " (List.map (fun (k, v) -> string_of_int (int_of_z k) ^ ":" ^ string_of_int (int_of_z v)) m))
+  | RVals l -> String.trim ("vals " ^ String.concat " " (List.map (function Some v -> string_of_int (int_of_z v) | None -> "none") l))
+  | RPair (k, v) -> "pair " ^ string_of_int (int_of_z k) ^ " " ^ string_of_int (int_of_z v)
+  | RKeyError -> "keyerror"
+let dop o = let (m', r) = dstep !dst o in dst := m'; print_string (show_dout r ^ "\n")
+let ints ws = List.map (fun w -> z_of_int (int_of_string w)) ws
+let rec zpairs = function a :: b :: r -> (a, b) :: zpairs r | _ -> []
+
 let handle (line : string) : bool =
   let line = String.trim line in
   let cmd, rest =
@@ -169,6 +185,21 @@ let handle (line : string) : bool =
            print_string ((if validate_ok sg' cl' then "1" else "0") ^ " " ^ (if bind_ok sg' cl' then "1" else "0") ^ "\n")
        | _ -> print_string "error k.validate syntax\n");
       true
+  | "d.reset" -> dst := []; print_string "ok\n"; true
+  | "d.set" -> (match ints (tokenize rest) with [k; v] -> dop (DSet (k, v)) | _ -> print_string "error\n"); true
+  | "d.get" -> (match ints (tokenize rest) with [k] -> dop (DGet k) | _ -> print_string "error\n"); true
+  | "d.del" -> (match ints (tokenize rest) with [k] -> dop (DDel k) | _ -> print_string "error\n"); true
+  | "d.contains" -> (match ints (tokenize rest) with [k] -> dop (DContains k) | _ -> print_string "error\n"); true
+  | "d.len" -> dop DLen; true
+  | "d.items" -> dop DItems; true
+  | "d.getd" -> (match ints (tokenize rest) with [k; d] -> dop (DGetD (k, Some d)) | _ -> print_string "error\n"); true
+  | "d.pop" -> (match ints (tokenize rest) with [k] -> dop (DPop (k, None)) | _ -> print_string "error\n"); true
+  | "d.popd" -> (match ints (tokenize rest) with [k; d] -> dop (DPop (k, Some (Some d))) | _ -> print_string "error\n"); true
+  | "d.popkeys" -> dop (DPopkeys (ints (tokenize rest), None)); true
+  | "d.popkeysd" -> (match ints (tokenize rest) with d :: ks -> dop (DPopkeys (ks, Some (Some d))) | _ -> print_string "error\n"); true
+  | "d.setdefault" -> (match ints (tokenize rest) with [k; v] -> dop (DSetdefault (k, Some v)) | _ -> print_string "error\n"); true
+  | "d.update" -> dop (DUpdate (zpairs (ints (tokenize rest)))); true
+  | "d.clear" -> dop DClear; true
   | "k.eq" ->
       (match parse_all rest with
        | [a; b] -> print_string (if py_eqb (val_of_sx a) (val_of_sx b) then "1\n" else "0\n")
